@@ -163,12 +163,21 @@ class _Wire:
         self.pieces.append(bytes(data))
 
 
-def _anonymous_protocol(S, got):
-    class P(S.SOMEIPDatagramProtocol):
-        def message_received(self, someip_message, addr, mc):
-            got.append((someip_message, addr, mc))
+_ANON = {}
 
-    return P()
+
+def _anonymous_protocol(S, got):
+    if "cls" not in _ANON:
+        class P(S.SOMEIPDatagramProtocol):
+            def __init__(self, sink):
+                super().__init__()
+                self.sink = sink
+
+            def message_received(self, someip_message, addr, mc):
+                self.sink.append((someip_message, addr, mc))
+
+        _ANON["cls"] = P
+    return _ANON["cls"](got)
 
 
 class _Endpoint:
